@@ -121,7 +121,7 @@ fn gen_block(r: &mut Rng, depth: usize) -> GraphBlock {
         4 => GraphBlock::HorizontalRule,
         5 => GraphBlock::BlockQuote((0..r.range(0, 2)).map(|_| gen_block(r, depth + 1)).collect()),
         6 => GraphBlock::BulletList((0..r.range(0, 3)).map(|_| (0..r.range(0, 3)).map(|_| gen_block(r, depth + 1)).collect()).collect()),
-        7 => GraphBlock::OrderedList((0..if r.chance(1, 5) { 11 } else { r.range(1, 3) }).map(|_| (0..r.range(1, 2)).map(|_| gen_block(r, depth + 1)).collect()).collect()),
+        7 => GraphBlock::OrderedList((0..if r.chance(1, 5) { 11 } else if depth == 0 && r.chance(1, 10) { r.range(100, 102) } else { r.range(1, 3) }).map(|_| (0..r.range(1, 2)).map(|_| gen_block(r, depth + 1)).collect()).collect()),
         _ => GraphBlock::Table(
             vec![vec![GraphInline::Str("h1".into())], vec![GraphInline::Str(r.pick(&["h", "", "long head"]).to_string())]],
             vec![*r.pick(&[ColumnAlignment::None, ColumnAlignment::Left, ColumnAlignment::Center, ColumnAlignment::Right]), ColumnAlignment::None],
@@ -184,7 +184,7 @@ pub fn run(ctx: &Ctx, model: &mut Model, rep: &mut Report) {
         let mut p = hist::profile_for(&keys, &key, true);
         // odd cases (oracle only, the correspondence takes the even ones): table cells with inline markup
         p.table_markup = i % 2 == 1;
-        let text = gen::document(&mut r, &p);
+        let text = if i % 97 == 5 || i % 97 == 6 { gen::long_ordered_list(&mut r) } else { gen::document(&mut r, &p) };
         rep.case(&text, text.split("\n\n").count() >= 2);
         if i < 2 {
             rep.sample(json!({"key": key, "text": text}));
